@@ -270,9 +270,9 @@ func init() {
 		"math.Float64frombits": id,
 		"math.Float32bits":     id,
 		"math.Float32frombits": id,
-		"math.Floor": func(in *Interp, fr *frame, fn *ssa.Function, a []Value) Value { return in.tb.FRound(term(a[0]), 2) },
-		"math.Ceil":  func(in *Interp, fr *frame, fn *ssa.Function, a []Value) Value { return in.tb.FRound(term(a[0]), 3) },
-		"math.Trunc": func(in *Interp, fr *frame, fn *ssa.Function, a []Value) Value { return in.tb.FRound(term(a[0]), 1) },
+		"math.Floor":           func(in *Interp, fr *frame, fn *ssa.Function, a []Value) Value { return in.tb.FRound(term(a[0]), 2) },
+		"math.Ceil":            func(in *Interp, fr *frame, fn *ssa.Function, a []Value) Value { return in.tb.FRound(term(a[0]), 3) },
+		"math.Trunc":           func(in *Interp, fr *frame, fn *ssa.Function, a []Value) Value { return in.tb.FRound(term(a[0]), 1) },
 		"math.RoundToEven": func(in *Interp, fr *frame, fn *ssa.Function, a []Value) Value {
 			return in.tb.FRound(term(a[0]), 0)
 		},
@@ -300,7 +300,9 @@ func init() {
 			tb := in.tb
 			return tb.Ite(tb.SLe(tb.BV(64, 0), term(a[0])), tb.BV(64, 0x7FF0000000000000), tb.BV(64, 0xFFF0000000000000))
 		},
-		"math.NaN": func(in *Interp, fr *frame, fn *ssa.Function, a []Value) Value { return in.tb.BV(64, 0x7FF8000000000001) },
+		"math.NaN": func(in *Interp, fr *frame, fn *ssa.Function, a []Value) Value {
+			return in.tb.BV(64, 0x7FF8000000000001)
+		},
 
 		"math/bits.LeadingZeros64": func(in *Interp, fr *frame, fn *ssa.Function, a []Value) Value { return in.tb.Clz(term(a[0])) },
 		"math/bits.LeadingZeros32": func(in *Interp, fr *frame, fn *ssa.Function, a []Value) Value {
